@@ -34,9 +34,12 @@ def fsc_landscape(
                 sigma0 = backend.sqrt(
                     backend.sum_labels(pw0, labels=labels, index=index)
                 )
-                fsc = backend.sum_labels(cov, labels=labels, index=index) / (
-                    sigma0 * sigma1
-                )
+                cov_sum = backend.sum_labels(cov, labels=labels, index=index)
+                denom = sigma0 * sigma1
+                # shells without power (e.g. constant images) do not correlate
+                fsc = backend.zeros(denom.shape, dtype=denom.dtype)
+                valid = denom > 0
+                fsc[valid] = cov_sum[valid] / denom[valid]
                 out[iz, iy, ix] = float(fsc.mean())
     return out
 
